@@ -5,7 +5,7 @@ import ast
 from typing import Dict, List, Tuple
 
 from ..common import step_roles, init_roles
-from ..model import norm, walk_no_nested
+from ..model import norm, norm_anon, walk_no_nested
 from ..pure import PureEval, NotPure, is_crop_obj
 from ..effects import stores
 from ..rdef import flow_of
@@ -102,7 +102,7 @@ def table_divisors(chk, prog, rule: str):
                     seen_pure.add((key, id(node)))
                     pure_sites += 1
                 bad = (v == 0) if what == "zero divisor" else (isinstance(v, (int, float)) and v <= 0)
-                construct = f"{norm(node)} @crop={cname}"
+                construct = f"{norm_anon(node)} @crop={cname}"
                 if bad and _guards_hold(pe, flow, nid):
                     chk.violation(rule, where, construct,
                                   f"{what}: {norm(arg)} evaluates to {v!r} for built-in crop {cname}",
